@@ -15,7 +15,7 @@ from . import common, rel, tlc, walk
 
 TIERS = {
     "quick": dict(sample=120, sim_num=60, sim_depth=4),
-    "thorough": dict(sample=1500, sim_num=800, sim_depth=5),
+    "thorough": dict(sample=1500, sim_num=180, sim_depth=4),
 }
 CUT_KINDS = ["persist", "delayed", "delayed_bare", "delayed_prefix", "legacy", "optimize_legacy"]
 
